@@ -10,6 +10,7 @@
 (*   annotate  adds to what the named files declare (C07, C09), never removes           *)
 (*   download  adds exactly the named / the missing texts, refuses existing ones (C19)  *)
 (*   lint, spdx read only (C15); lint's exit status is 0 iff Compliant (C01)            *)
+(*   convert-dep5 moves the project-wide declaration, attribution unchanged (C17)       *)
 (* The same operators (Apply, ExitOf) judge recorded runs of the real tool in           *)
 (* Trace_Workflow; the behaviours TLC explores here are replayed step by step with the  *)
 (* abstract state compared after every command.                                         *)
@@ -17,16 +18,22 @@ EXTENDS Naturals, Sequences, FiniteSets, TLC, Json
 
 CONSTANTS Files,        \* covered files of the project
           Lics,         \* licence identifiers in play (valid SPDX identifiers and LicenseRef-)
+          GlobFiles,    \* the files a project-wide declaration (.reuse/dep5, or the REUSE.toml it is converted to) covers
+          GlobLic,      \* ... and the licence it gives them (together with a copyright holder)
           MaxCmds,
           InitPick      \* which initial states to start from: "all" or "few"
 
 VARIABLES info, present, hist,
+          glob,          \* "none" | "dep5" | "toml": where the project-wide declaration lives
           start          \* history variable: the initial state of this behaviour (for replay)
-vars == <<info, present, hist, start>>
+vars == <<info, present, hist, glob, start>>
 
 Nothing == [cop |-> FALSE, lic |-> {}]
 
-(* ------------------------------------------------------------------ derived: the lint report *)
+(* what the linter sees: a file's own declarations aggregated with the project-wide one *)
+Seen(i, g) == [f \in DOMAIN i |-> IF g # "none" /\ f \in GlobFiles THEN [cop |-> TRUE, lic |-> i[f].lic \cup {GlobLic}] ELSE i[f]]
+
+(* ------------------------------------------------------------------ derived: the lint report (i = what the linter sees) *)
 Used(i)        == UNION {i[f].lic : f \in DOMAIN i}
 Missing(i, p)  == Used(i) \ p
 Unused(i, p)   == p \ Used(i)
@@ -40,10 +47,11 @@ DownloadCmd(L)       == [kind |-> "download", files |-> {}, cop |-> FALSE, lic |
 DownloadAllCmd       == [kind |-> "download-all", files |-> {}, cop |-> FALSE, lic |-> {}]
 LintCmd              == [kind |-> "lint", files |-> {}, cop |-> FALSE, lic |-> {}]
 SpdxCmd              == [kind |-> "spdx", files |-> {}, cop |-> FALSE, lic |-> {}]
+ConvertCmd           == [kind |-> "convert-dep5", files |-> {}, cop |-> FALSE, lic |-> {}]
 
 Cmds == {AnnotateCmd(F, c, L) : F \in (SUBSET Files) \ {{}}, c \in BOOLEAN, L \in {S \in SUBSET Lics : Cardinality(S) <= 2}}
         \cup {DownloadCmd(L) : L \in {S \in SUBSET Lics : Cardinality(S) \in {1, 2}}}
-        \cup {DownloadAllCmd, LintCmd, SpdxCmd}
+        \cup {DownloadAllCmd, LintCmd, SpdxCmd, ConvertCmd}
 Sensible(c) == c.kind = "annotate" => (c.cop \/ c.lic # {})      \* annotate with nothing to add is a usage error
 
 (* the documented effect on what the project declares *)
@@ -55,7 +63,14 @@ ApplyPresent(c, i, p) ==
    CASE c.kind = "download"     -> p \cup c.lic
      [] c.kind = "download-all" -> p \cup Missing(i, p)
      [] OTHER                   -> p
-(* ... and the documented exit status *)
+(* convert-dep5 moves the project-wide declaration from .reuse/dep5 into REUSE.toml; without a dep5 it refuses *)
+ApplyGlob(c, g) == IF c.kind = "convert-dep5" /\ g = "dep5" THEN "toml" ELSE g
+(* ... and the documented exit status (i = what the linter sees) *)
+ExitOfG(c, i, p, g) ==
+   IF c.kind = "convert-dep5" THEN (IF g = "dep5" THEN 0 ELSE 2)
+   ELSE CASE c.kind = "lint"     -> IF Compliant(i, p) THEN 0 ELSE 1
+          [] c.kind = "download" -> IF c.lic \cap p # {} THEN 1 ELSE 0
+          [] OTHER               -> 0
 ExitOf(c, i, p) ==
    CASE c.kind = "lint"         -> IF Compliant(i, p) THEN 0 ELSE 1
      [] c.kind = "download"     -> IF c.lic \cap p # {} THEN 1 ELSE 0        \* an existing text is refused, never replaced
@@ -64,8 +79,9 @@ ExitOf(c, i, p) ==
 Exec(c) == /\ Len(hist) < MaxCmds
            /\ Sensible(c)
            /\ info' = ApplyInfo(c, info)
-           /\ present' = ApplyPresent(c, info, present)
-           /\ hist' = Append(hist, [cmd |-> c, exit |-> ExitOf(c, info, present)])
+           /\ present' = ApplyPresent(c, Seen(info, glob), present)
+           /\ glob' = ApplyGlob(c, glob)
+           /\ hist' = Append(hist, [cmd |-> c, exit |-> ExitOfG(c, Seen(info, glob), present, glob)])
            /\ UNCHANGED start
 
 InfoChoices == {Nothing, [cop |-> TRUE, lic |-> {}]} \cup {[cop |-> b, lic |-> {x}] : b \in BOOLEAN, x \in Lics}
@@ -76,11 +92,12 @@ Init == /\ hist = <<>>
                   /\ info \in {[f \in Files |-> Nothing], [f \in Files |-> [cop |-> TRUE, lic |-> {x}]],
                                [f \in Files |-> IF f = CHOOSE g \in Files : TRUE THEN [cop |-> TRUE, lic |-> {x}] ELSE Nothing]}
                   /\ present \in {{}, {x}, Lics}
-        /\ start = [info |-> info, present |-> present]
+        /\ glob \in {"none", "dep5", "toml"}
+        /\ start = [info |-> info, present |-> present, glob |-> glob]
 Next == \E c \in Cmds : Exec(c)
 Spec == Init /\ [][Next]_vars
 (* for -simulate: one randomly drawn command per kind, so that behaviours mix the kinds evenly *)
-Kinds == {"annotate", "annotate-everything", "download", "download-all", "lint", "spdx"}
+Kinds == {"annotate", "annotate-everything", "download", "download-all", "lint", "spdx", "convert-dep5"}
 GenPool(k) == IF k = "annotate-everything"            \* the tutorial's step: every file gets a holder and one licence
               THEN {AnnotateCmd(Files, TRUE, {x}) : x \in Lics}
               ELSE {x \in Cmds : x.kind = k /\ Sensible(x)}
@@ -91,18 +108,22 @@ GenNext == \E k \in Kinds : \E c \in {RandomElement(GenPool(k))} : Exec(c)
 Monotone == [][/\ present \subseteq present'
                /\ \A f \in DOMAIN info : (info[f].cop => info'[f].cop) /\ info[f].lic \subseteq info'[f].lic]_vars
 (* lint and spdx change nothing *)
-ReadersReadOnly == [][hist'[Len(hist')].cmd.kind \in {"lint", "spdx"} => (info' = info /\ present' = present)]_vars
+ReadersReadOnly == [][hist'[Len(hist')].cmd.kind \in {"lint", "spdx"} => (info' = info /\ present' = present /\ glob' = glob)]_vars
+(* C17 at this level: converting dep5 changes where the declaration lives, never what any file is seen to declare *)
+ConversionKeepsAttribution == [][Seen(info', glob') = Seen(ApplyInfo(hist'[Len(hist')].cmd, info), glob)]_vars
+OnlyConvertMovesGlob == [][glob' # glob => (hist'[Len(hist')].cmd.kind = "convert-dep5" /\ glob = "dep5" /\ glob' = "toml")]_vars
 (* the tutorial's promise: annotate everything, download what is missing -> compliant (unless unused texts lie around) *)
 Fixed(i, p, x) == LET i2 == ApplyInfo(AnnotateCmd(DOMAIN i, TRUE, {x}), i)
                   IN  <<i2, ApplyPresent(DownloadAllCmd, i2, p)>>
 ComplianceReachable ==
-   \A x \in Lics : LET s == Fixed(info, present, x)
+   \A x \in Lics : LET s == Fixed(Seen(info, glob), present, x)
                    IN  Unused(s[1], s[2]) = {} => Compliant(s[1], s[2])
 (* download --all supplies exactly the missing texts, and a second run finds nothing to do *)
-DownloadAllExact == LET p2 == ApplyPresent(DownloadAllCmd, info, present)
-                    IN  /\ Missing(info, p2) = {}
-                        /\ p2 \ present = Missing(info, present)
-                        /\ ApplyPresent(DownloadAllCmd, info, p2) = p2
+DownloadAllExact == LET sn == Seen(info, glob)
+                        p2 == ApplyPresent(DownloadAllCmd, sn, present)
+                    IN  /\ Missing(sn, p2) = {}
+                        /\ p2 \ present = Missing(sn, present)
+                        /\ ApplyPresent(DownloadAllCmd, sn, p2) = p2
 (* what lint says after download --all: the only licence trouble left is unused texts *)
 (* annotate is idempotent on the abstract state *)
 AnnotateIdempotent == \A c \in Cmds : c.kind = "annotate" => ApplyInfo(c, ApplyInfo(c, info)) = ApplyInfo(c, info)
@@ -115,7 +136,7 @@ SetToSeq(T) == IF T = {} THEN <<>> ELSE LET x == CHOOSE y \in T : TRUE IN <<x>> 
 InfoJson(i) == [f \in DOMAIN i |-> [cop |-> i[f].cop, lic |-> SetToSeq(i[f].lic)]]
 CmdJson(c) == [kind |-> c.kind, files |-> SetToSeq(c.files), cop |-> c.cop, lic |-> SetToSeq(c.lic)]
 Emit == Len(hist) = MaxCmds =>
-          PrintT(ToJson([info |-> InfoJson(start.info), present |-> SetToSeq(start.present),
+          PrintT(ToJson([info |-> InfoJson(start.info), present |-> SetToSeq(start.present), glob |-> start.glob,
                          hist |-> [k \in 1..Len(hist) |-> [cmd |-> CmdJson(hist[k].cmd), exit |-> hist[k].exit]],
                          endinfo |-> InfoJson(info), endpresent |-> SetToSeq(present)]))
 =====================================================================================
